@@ -115,7 +115,9 @@ func (e *emitter) glue(s string) { e.toks = append(e.toks, tok{s, tGlue}) }
 
 func (e *emitter) ws() string {
 	if e.sp.comments {
-		opts := []string{" ", " ", " /* c */ ", "/**/", " /* a * b / c */ ", " -- note\n", " // note\n", " /* x\n y */ "}
+		// (a block comment ends at the first "*/": it does not nest; comment introducers inside another comment mean nothing)
+		opts := []string{" ", " ", " /* c */ ", "/**/", " /* a * b / c */ ", " -- note\n", " // note\n", " /* x\n y */ ",
+			" /* see /* ticket 12 */ ", " /* -- no */ ", " /* // no */ ", " -- /* open\n", " // */ close\n", " /*/ x */ ", " /* x **/ "}
 		o := opts[e.srnd.Intn(len(opts))]
 		if strings.HasPrefix(strings.TrimSpace(o), "/*") {
 			e.blocks++
